@@ -260,6 +260,32 @@ def prove_lemmas(pid, header, lemmas, chunk=12, timeout=600, tag="lem"):
     return verdict, wall
 
 
+def eval_cases(pid, header, terms, chunk=300, timeout=600, tag="ev", ty=None):
+    """Evaluate closed Coq terms of a small enum / bool / Z type with vm_compute, many per file.
+    Returns (tokens, wall): tokens[i] is the printed normal form of terms[i] (whitespace-normalised),
+    or "ERROR" if its file did not compile.  Terms must not print ';' inside a value."""
+    n = len(terms)
+    chunks = [list(range(i, min(n, i + chunk))) for i in range(0, n, chunk)]
+    jobs = []
+    for k, c in enumerate(chunks):
+        body = header + "\nEval vm_compute in (%s).\n" % coq_list(["(%s)" % terms[i] for i in c], sep=";\n ")
+        jobs.append(("%s_%03d" % (tag, k), body))
+    res = run_coq_jobs(pid, jobs, timeout=timeout)
+    toks = ["ERROR"] * n
+    for k, c in enumerate(chunks):
+        r = res["%s_%03d" % (tag, k)]
+        if not r.ok:
+            log("[%s] coq job %s_%03d failed: %s" % (pid, tag, k, (r.err or r.out)[-800:]))
+            continue
+        lists = r.eval_lists()
+        if len(lists) == 1 and len(lists[0]) == len(c):
+            for i, t in zip(c, lists[0]):
+                toks[i] = t
+        else:
+            log("[%s] coq job %s_%03d: could not parse %d results" % (pid, tag, k, len(c)))
+    return toks, sum(r.wall for r in res.values())
+
+
 def scan_forbidden():
     """grep the development for Admitted / Axiom / ... (comments stripped)."""
     hits = []
